@@ -1,6 +1,7 @@
 //! C20 Introspection reports the true number of links and counts every message.
 mod agentsim;
 mod links;
+mod pulse;
 mod threads;
 
 use vcommon::Ctx;
@@ -21,11 +22,20 @@ fn main() {
          unknown lanes, stop) each ended by settle() and a snapshot of all readers; non-trivial = a phase whose event count is exactly \
          predictable saw sync responses or a broadcast to >= 2 links, or the runtime removed a remote and another link followed. \
          threads: 1-5 OS threads counting on one UplinkReporter while one thread snapshots; non-trivial = >= 3 non-empty snapshots \
-         interleaved with >= 2 counting threads.",
+         interleaved with >= 2 counting threads. \
+         pulse-lanes: the real NodeMetaAgent / LaneMetaAgent (from register_introspection, run against a fake AgentContext) observe the \
+         real SimAgent + runtime registered through IntrospectionResolver::register_agent, paused clock; steps = link / unlink / sync on the \
+         supply lane, traffic (control-lane programs supplying to the links, commands to cmd and v0) delivered before or left in flight at the \
+         next step, clock advances around / at multiples of the pulse interval (1, 2, 5 s), sync requests on the meta lanes, and steady runs \
+         (the same traffic then the same advance, 2-6 times); every frame of the three pulse lanes is read, a second reader takes the final \
+         remainder. Non-trivial = at least two consecutive pulse intervals with identical non-zero traffic, identical length and no link \
+         change in between (measured on the generated history).",
     );
     ctx.assume("sequentially consistent executions only; the Relaxed orderings of the counters are not explored (x86)");
     ctx.assume("agentsim: the frames a still-connected remote has received at quiescence (linked without a later unlinked) define 'actually linked'; a remote the harness dropped may or may not still be counted until the runtime notices (completion promise)");
     ctx.assume("event_count counts events handed to links before backpressure relief (count_single: 1 per targeted response incl. the synced marker, count_broadcast: current fan-out), as implemented in handle_event");
+
+    ctx.assume("pulse-lanes: the meta agents start before any traffic (their first snapshot is a baseline that is never published, by design); expected totals follow the runtime's counting rules checked by agentsim (command envelope written = +1 lane and aggregate; supply = fan-out; sync of the supply lane = 1)");
 
     let (d22, d33) = ctx.pick((7usize, 6usize), (9usize, 7usize));
     ctx.enumerate("links-enum-2x2", |w, ws| links::tree_cases(2, 2, d22, 2, w, ws), links::check_tree);
@@ -37,5 +47,8 @@ fn main() {
     ctx.prop("agentsim", n, move || agentsim::arb_case(ph, ops), agentsim::check);
     let n = ctx.pick(2_000, 20_000);
     ctx.prop("threads", n, threads::strategy, threads::check);
+    let n = ctx.pick(20_000, 400_000);
+    let steps = ctx.pick(14usize, 30usize);
+    ctx.prop("pulse-lanes", n, move || pulse::arb_case(steps), pulse::check);
     ctx.finish();
 }
